@@ -190,7 +190,8 @@ def check_canonical(ctx, tt, mpmath, mps, kind, right, chi, tol, qr, normalise, 
         return
     if zl and (not normalise or nf == 0.0):
         # the zero short-circuit was taken (or the input is trivially zero): legitimate only for a numerically zero state
-        if float(np.abs(st_in).max()) > TOL * sc:
+        # (a cut applied to a non-canonical MPS may legitimately annihilate the state)
+        if not cut and float(np.abs(st_in).max()) > TOL * sc:
             ctx.violation('zero-state', 'zeros_like returned for a non-zero state', rep)
         return
     if zero_state:
